@@ -898,6 +898,10 @@ class Builder:
 
         # if self._mem_mgr.is_register_active(loop_register):
         #     raise ValueError("Register used for looping should not already be active")
+        if activate:
+            # An explicitly requested register is taken into use like an automatically
+            # chosen one (this raises if the register is already in use).
+            self._mem_mgr.add_active_register(loop_register)
         return loop_register
 
     def _loop_get_entry_commands(
